@@ -15,18 +15,18 @@ import (
 )
 
 var (
-	fScenario = flag.String("dsim.scenario", "", "scenario name")
-	fSeed     = flag.Uint64("dsim.seed", 1, "batch seed")
-	fStart    = flag.Int("dsim.start", 0, "first run index")
-	fCount    = flag.Int("dsim.count", 1, "number of runs")
-	fMode     = flag.String("dsim.mode", "event", "event|yield")
-	fOut      = flag.String("dsim.out", "", "result file (JSON lines)")
-	fProgress = flag.String("dsim.progress", "", "progress file")
-	fReplay   = flag.String("dsim.replay", "", "replay file (choices)")
-	fSample   = flag.Int("dsim.sample", 0, "keep log sample every n-th run")
-	fFull     = flag.Bool("dsim.fulllog", false, "keep full logs in samples")
+	fScenario  = flag.String("dsim.scenario", "", "scenario name")
+	fSeed      = flag.Uint64("dsim.seed", 1, "batch seed")
+	fStart     = flag.Int("dsim.start", 0, "first run index")
+	fCount     = flag.Int("dsim.count", 1, "number of runs")
+	fMode      = flag.String("dsim.mode", "event", "event|yield")
+	fOut       = flag.String("dsim.out", "", "result file (JSON lines)")
+	fProgress  = flag.String("dsim.progress", "", "progress file")
+	fReplay    = flag.String("dsim.replay", "", "replay file (choices)")
+	fSample    = flag.Int("dsim.sample", 0, "keep log sample every n-th run")
+	fFull      = flag.Bool("dsim.fulllog", false, "keep full logs in samples")
 	fChoiceLog = flag.String("dsim.choicelog", "", "append every choice to this file as it is made (crash triage)")
-	fKeep     = flag.Bool("dsim.keepchoices", false, "keep choices in every result")
+	fKeep      = flag.Bool("dsim.keepchoices", false, "keep choices in every result")
 )
 
 type ReplayFile struct {
